@@ -54,6 +54,9 @@ pub(crate) struct QuicSocket {
     quic_conn: Arc<std::sync::Mutex<QuicConnection>>,
     h3_conn: Arc<std::sync::Mutex<h3::Connection>>,
     waiting_writable_streams: std::sync::Mutex<HashSet<u64>>,
+    /// Request streams the client is known to have reset and the codec has not yet been told
+    /// about. Changed only while `quic_conn` is locked.
+    reset_streams: std::sync::Mutex<HashSet<u64>>,
     id: log_utils::IdChain<u64>,
     tls_connection_meta: tls_demultiplexer::ConnectionMeta,
     /// TLS client_random extracted from QUIC handshake
@@ -575,6 +578,7 @@ impl QuicMultiplexer {
             quic_conn,
             h3_conn,
             waiting_writable_streams: Default::default(),
+            reset_streams: Default::default(),
             id: self.id.extended(log_utils::IdItem::new(
                 SOCKET_ID_FMT,
                 self.next_socket_id.fetch_add(1, Ordering::Relaxed),
@@ -873,6 +877,41 @@ impl QuicSocket {
         self.quic_conn.lock().unwrap().stream_finished(stream_id)
     }
 
+    /// Whether the client has reset the stream.
+    ///
+    /// QUIC reports a reset stream as finished, and the HTTP/3 layer does not always say
+    /// `Reset` for it: if the reset arrives while a DATA frame is being read, it says `Data`
+    /// and then `Finished`, and the pending reset stays unread in the QUIC stream. This looks
+    /// for it the way `h3::Connection::poll` does for the streams it finds finished late:
+    /// a finished stream that is still readable holds an error. Reading it takes it out of the
+    /// QUIC stream, so it is remembered until the codec has handled it
+    /// (see [`Self::forget_stream_reset`]).
+    pub fn stream_reset_by_peer(&self, stream_id: u64) -> bool {
+        let mut conn = self.quic_conn.lock().unwrap();
+        let mut known = self.reset_streams.lock().unwrap();
+        if known.contains(&stream_id) {
+            return true;
+        }
+        if conn.stream_finished(stream_id)
+            && conn.stream_readable(stream_id)
+            && matches!(
+                conn.stream_recv(stream_id, &mut []),
+                Err(quiche::Error::StreamReset(_))
+            )
+        {
+            known.insert(stream_id);
+            return true;
+        }
+        false
+    }
+
+    /// The codec has marked the stream as reset by the client, nobody asks
+    /// [`Self::stream_reset_by_peer`] about it any more
+    pub fn forget_stream_reset(&self, stream_id: u64) {
+        let _conn = self.quic_conn.lock().unwrap();
+        self.reset_streams.lock().unwrap().remove(&stream_id);
+    }
+
     pub fn notify_stream_waiting_writable(&self, stream_id: u64) {
         self.waiting_writable_streams
             .lock()
@@ -999,10 +1038,15 @@ impl QuicSocket {
     }
 
     fn poll_h3_connection(&self) -> h3::Result<(u64, h3::Event)> {
-        self.h3_conn
-            .lock()
-            .unwrap()
-            .poll(&mut self.quic_conn.lock().unwrap())
+        let mut h3_conn = self.h3_conn.lock().unwrap();
+        let mut quic_conn = self.quic_conn.lock().unwrap();
+        let event = h3_conn.poll(&mut quic_conn);
+        if let Ok((stream_id, h3::Event::Reset(_))) = &event {
+            // the reset has just been read out of the QUIC stream: remembered before the
+            // connection is unlocked, so that `stream_reset_by_peer` never misses it
+            self.reset_streams.lock().unwrap().insert(*stream_id);
+        }
+        event
     }
 
     fn process_pending_h3_events(&self) -> io::Result<Option<QuicSocketEvent>> {
@@ -1027,6 +1071,15 @@ impl QuicSocket {
             }
             Ok((stream_id, h3::Event::Data)) => Ok(Some(QuicSocketEvent::Readable(stream_id))),
             Ok((stream_id, h3::Event::Finished)) => {
+                if self.stream_reset_by_peer(stream_id) {
+                    log_id!(
+                        trace,
+                        self.id,
+                        "Stream reset by client while its body was read: id={}",
+                        stream_id
+                    );
+                    return Ok(Some(QuicSocketEvent::Close(stream_id)));
+                }
                 Ok(Some(QuicSocketEvent::Finished(stream_id)))
             }
             Ok((stream_id, h3::Event::Reset(err))) => {
